@@ -283,7 +283,7 @@ func runVersions(x *Exec, prop string) {
 		if len(all) > 7 {
 			all = all[:7]
 		}
-		queryPair := func(a, b snap) ([][]string, error) {
+		queryPair := func(a, b snap, rescan bool) ([][]string, error) {
 			var rows [][]string
 			var err error
 			ct := w.TableName("chg")
@@ -291,6 +291,15 @@ func runVersions(x *Exec, prop string) {
 				return nil, err
 			}
 			rows, err = rd.Query("select * from " + ct)
+			if err == nil && rescan {
+				// the same table as the inner side of a join: SQLite scans it once per outer row with one cursor
+				// (CROSS JOIN keeps the left table outside); every scan must give the full answer again
+				var twice [][]string
+				twice, err = rd.Query("select c.* from (select 1 union all select 2) x cross join " + ct + " c")
+				if err == nil && RowsString(SortRowsByKey(twice)) != RowsString(SortRowsByKey(append(append([][]string{}, rows...), rows...))) {
+					err = fmt.Errorf("RESCAN: scanned twice in one statement the table gives %s, scanned once %s", RowsString(twice), RowsString(rows))
+				}
+			}
 			rd.Exec("drop table " + ct)
 			return rows, err
 		}
@@ -304,13 +313,19 @@ func runVersions(x *Exec, prop string) {
 				var err error
 				before := len(w.S.Log)
 				w.Budget = w.Stats.Steps + 5000
-				w.Solo(rd, func() { rows, err = queryPair(a, b) })
+				w.Solo(rd, func() { rows, err = queryPair(a, b, false) })
 				n := len(w.S.Log) - before
 				desc := fmt.Sprintf("changes(from=%s, to=%s)", versionsJSON(a.versions), versionsJSON(b.versions))
 				if err != nil {
 					x.Fail("C12-query-failed", "%s fails without any fault: %v (from shows %s, to shows %s)", desc, err, RowsString(a.rows), RowsString(b.rows))
 					return
 				}
+				w.Solo(rd, func() { _, err = queryPair(a, b, true) })
+				if err != nil {
+					x.Fail("C12-wrong-rows", "%s: %v", desc, err)
+					return
+				}
+				x.Probe("changes-table-scanned-twice-in-one-statement")
 				if d := checkChanges(rows, a.rows, b.rows); d != "" {
 					x.Fail("C12-wrong-rows", "%s returned %s: %s (from shows %s, to shows %s)", desc, RowsString(rows), d, RowsString(a.rows), RowsString(b.rows))
 					return
@@ -342,7 +357,7 @@ func runVersions(x *Exec, prop string) {
 							if kind == FaultStall {
 								rd.Exec("update s3db_conn set deadline=?", FmtTime(time.Now().Add(2*time.Second)))
 							}
-							frows, ferr = queryPair(a, b)
+							frows, ferr = queryPair(a, b, false)
 							if kind == FaultStall {
 								rd.Exec("update s3db_conn set deadline=NULL")
 							}
